@@ -324,12 +324,31 @@ func (c *Ctx) tokenIdentity() {
 			} else {
 				continue
 			}
+			// a helper of the client's completion closures (called from nowhere else) is client role like them
+			if c.calledOnlyFromClosures(fn, 2) {
+				continue
+			}
 			n++
+			recv := ssa.Value(fn.Params[0])
+			// the token handed in by the caller: judged where the caller names it
+			if p, ok := ir.SeeThrough(tok).(*ssa.Parameter); ok && p != fn.Params[0] {
+				if site := c.singleCaller(fn); site != nil {
+					for i, fp := range fn.Params {
+						if fp == p && i < len(site.Common().Args) {
+							tok = site.Common().Args[i]
+							recv = ir.SeeThrough(site.Common().Args[0])
+							if hp := site.Parent(); len(hp.Params) > 0 && recv != ssa.Value(hp.Params[0]) {
+								recv = nil
+							}
+						}
+					}
+				}
+			}
 			t := tokenOf(tok)
 			// the receiver of the field must be this function's own service
 			sameSvc := false
 			if mi, ok := tok.(*ssa.MakeInterface); ok {
-				if fa, ok := mi.X.(*ssa.FieldAddr); ok && ir.SeeThrough(fa.X) == ssa.Value(fn.Params[0]) {
+				if fa, ok := mi.X.(*ssa.FieldAddr); ok && recv != nil && ir.SeeThrough(fa.X) == recv {
 					sameSvc = true
 				}
 			}
@@ -340,6 +359,32 @@ func (c *Ctx) tokenIdentity() {
 	_ = r
 	c.R.Count("tree (de)registrations on behalf of a connection", n)
 	c.R.Floor("tree (de)registrations on behalf of a connection (restore, SUBSCRIBE, UNSUBSCRIBE, teardown)", n, 4)
+}
+
+// calledOnlyFromClosures: fn has callers and each is a function literal or a function called only from such.
+func (c *Ctx) calledOnlyFromClosures(fn *ssa.Function, depth int) bool {
+	callers := c.P.Callers(fn)
+	if len(callers) == 0 {
+		return false
+	}
+	for _, site := range callers {
+		if site.Parent().Parent() != nil {
+			continue
+		}
+		if depth == 0 || !c.calledOnlyFromClosures(site.Parent(), depth-1) {
+			return false
+		}
+	}
+	return true
+}
+
+// singleCaller: the one library call site of fn, nil when there are none or several.
+func (c *Ctx) singleCaller(fn *ssa.Function) ssa.CallInstruction {
+	callers := c.P.Callers(fn)
+	if len(callers) != 1 {
+		return nil
+	}
+	return callers[0]
 }
 
 // matchQosMin: delivery QoS = min(publish QoS, granted QoS) in the tree's match.
